@@ -321,11 +321,12 @@ pub fn check(sc: &Scenario, o: &Outcome) -> Vec<(String, String)> {
     if max_overlap > sc.n {
         v.push(("C08/more-than-n-concurrent".into(), format!("{} tasks were running at the same time on a {}-thread pool", max_overlap, sc.n)));
     }
-    // worker names must be decimal ids below n
+    // tasks run on the pool's threads, not on the thread that submits them. (How the pool names its workers is its own
+    // business: only the submitting thread's name, which the harness chose, is compared.)
     for e in &o.events {
         if let Ev::Start(id, w) = e {
-            if w.parse::<usize>().map(|x| x >= sc.n).unwrap_or(true) {
-                v.push(("C08/ran-outside-pool".into(), format!("task {} ran on thread {:?}, not a worker of the pool", id, w)));
+            if w == "lifecycle" || w == "main" {
+                v.push(("C08/ran-outside-pool".into(), format!("task {} ran on the submitting thread {:?}, not on a worker of the pool", id, w)));
             }
         }
     }
